@@ -27,12 +27,12 @@ H = hexs
 def proj_c03(op, out):
     w = props.first_word(op)
     if w in ('read_string', 'read_stream', 'read_file', 'read_chunked', 'deepnest', 'err', 'dump', 'wf', 'battery', 'leakcheck3',
-             'lookup_all', 'read_stream_fail', 'read_file_ioerr', 'read_string_ioerr'):
+             'lookup_all', 'read_stream_fail', 'read_file_ioerr', 'read_string_ioerr', 'read_stream_eagain'):
         return out
     return None          # cov, mkfile, mkdir, init, set_*: not part of the comparison
 
-READS = ('read_string', 'read_stream', 'read_file', 'read_chunked', 'deepnest', 'read_stream_fail', 'read_file_ioerr', 'read_string_ioerr')
-IOFAIL = ('read_stream_fail', 'read_file_ioerr', 'read_string_ioerr')
+READS = ('read_string', 'read_stream', 'read_file', 'read_chunked', 'deepnest', 'read_stream_fail', 'read_file_ioerr', 'read_string_ioerr', 'read_stream_eagain')
+IOFAIL = ('read_stream_fail', 'read_file_ioerr', 'read_string_ioerr', 'read_stream_eagain')
 IO_ERR = '1 %s - 0' % b'file I/O error'.hex()
 
 def oracle_c03(ops, outs):
@@ -235,6 +235,10 @@ def sess_iofail(texts):
                 out = impl.do('read_stream_fail %d %s' % ((0, 1, 7)[(n + c) % 3], H(t[:c])))
                 impl.do('errio'); impl.do('dump'); impl.do('battery')
                 k = 'iofail:stream:%s' % (out or '?').split(' ')[0][:12]; stats[k] = stats.get(k, 0) + 1
+        # a failure that looks transient (EAGAIN from a non-blocking descriptor) must fail too, not be retried for ever
+        for t in (b'', b'a = 1;\n', b'a = (1, 2'):
+            impl.do('init'); out = impl.do('read_stream_eagain ' + H(t)); impl.do('errio'); impl.do('dump'); impl.do('battery')
+            k = 'iofail:eagain:%s' % (out or '?').split(' ')[0][:12]; stats[k] = stats.get(k, 0) + 1
         impl.do('init'); after('file', impl.do('read_file_ioerr ' + H(BAD)))
         for t in (b'a = 1;\n@include "/proc/self/mem"\nb = 2;\n', b'@include "/proc/self/mem"\n', b'g = {\n@include "/proc/self/mem"\n',
                   b'a = 1;\n@include "/proc/self/mem"\nb = ;\n'):
